@@ -1,10 +1,12 @@
 //! axmc — bounded exhaustive exploration of xarantolus/ax (see /verif/DESIGN.md).
 
+mod c07;
 mod common;
 mod emu;
 mod natdiff;
 mod native;
 mod props_nat;
+mod stexp;
 mod sup;
 mod sweeps;
 mod tmpl;
@@ -79,8 +81,10 @@ fn run_prop(id: &str, tier: Tier) -> i32 {
         "C01" => props_nat::c01(tier),
         "C02" => props_nat::c02(tier),
         "C03" => props_nat::c03(tier),
+        "C04" => props_nat::c04(tier),
         "C05" => props_nat::c05(tier),
         "C06" => props_nat::c06(tier),
+        "C07" => c07::run(tier),
         _ => common::machinery_error(&format!("no check registered for {id}")),
     }
 }
